@@ -24,6 +24,13 @@ OPTSETS_QUICK = [
 ]
 
 
+# blocks of the thorough corpus: equal size but longer was accepted under -size (repaired); a SWAPk SWAPk pair left by greedy
+# makes the emitted block dearer on states where two storage keys coincide (known finding)
+PINNED = ["PUSH 0 SSTORE DUP1 PUSH 0 SSTORE ADD PUSH 0 MSTORE PUSH 1 SSTORE DUP1 PUSH 1 SLOAD PUSH 0 SLOAD",
+          "SSTORE PUSH 1 MSTORE DUP1 PUSH 0 SSTORE RETURNDATASIZE SSTORE PUSH 20 MSTORE PUSH 1 ISZERO SUB PUSH 1 ADD PUSH 0 MLOAD ADD PUSH 0 SSTORE PUSH 0 MLOAD",
+          "PUSH 0 MSTORE DUP1 SLOAD POP DUP1 PUSH 0 SSTORE DUP1 PUSH 1 SSTORE PUSH 1 ADD SSTORE PUSH 0 SLOAD"]
+
+
 def crit_of(argv):
     return "size" if "-size" in argv else "length" if "-length" in argv else "gas"
 
@@ -71,6 +78,7 @@ def run(tier):
             cmds += corpus.sample(groups["Xrule"], 150 if smt else 10 ** 6, seed + i) + corpus.sample(groups["Xvoc"], 80 if smt else 6000, seed + i)
             cmds += corpus.sample(groups["Xchain"], 100 if smt else 3000, seed + i)
             cmds += corpus.sample(groups["S"], 20 if smt else 600, seed + i) + corpus.sample(groups["R"], 80 if smt else 10 ** 6, seed + i)
+        cmds += [{"cmd": "opt", "text": t} for t in PINNED]
         if crit_of(argv) == "gas" and not smt:
             cmds += groups["Xwarm"]          # warm/cold pricing: account and storage accesses on shared values
         elif crit_of(argv) == "gas":
@@ -132,11 +140,21 @@ def run(tier):
                      "tool_costs": c["_tool"]}
             else:
                 d = {"rows": c["rows"], "totals": c["totals"], "options": c["_opt"], "clause": bad[0][1]}
+            d["_states"] = sorted({v[0] for v in bad})
             viol.append((d, ("violates", bad[0][1], bad[0][0], len(bad))))
         elif vl:
             undec += 1
-    out = findings.settle("C08", viol, lambda d: dict(d, key="%s => %s | %s | %s" % (d.get("orig"), d.get("opt"), d.get("criterion"), d.get("clause"))),
-                          lambda d: ["%s => %s | %s | %s" % (d.get("orig"), d.get("opt"), d.get("criterion"), d.get("clause"))])
+    def keys(d):
+        ks = ["%s => %s | %s | %s" % (d.get("orig"), d.get("opt"), d.get("criterion"), d.get("clause"))]
+        toks = (d.get("opt") or "").split()
+        swap_pair = any(a == b and a.startswith("SWAP") for a, b in zip(toks, toks[1:]))
+        # grid states 1 and 2 are the generic ones (all stack words distinct and unrelated to the constants of the block)
+        if d.get("clause") == "gas grew" and swap_pair and min(d.get("_states") or [0]) > 2:
+            ks.append("gas|alias-states-only|swap-pair")
+        return ks
+    out = findings.settle("C08", viol, lambda d: dict({k: v for k, v in d.items() if k != "_states"},
+                                                      key="%s => %s | %s | %s" % (d.get("orig"), d.get("opt"), d.get("criterion"), d.get("clause")),
+                                                      failing_states=d.get("_states", [])[:8]), keys)
     nblock = len([c for c in cases if c["kind"] == "block"])
     ntot = len(cases) - nblock
     if nblock == 0 or ntot == 0:
